@@ -576,11 +576,13 @@ theorem k_doRegister (st : St) (k : Int) (reg : St → St × Nat) (h : ∀ s, KS
     · exact (h st).trans (g3_with_slots _ _).kstep
 
 
+theorem g3_with_cancelReq (st : St) (l : List Int) : G3 st { st with cancelReq := l } := G3.of_eq rfl rfl rfl rfl
+
 theorem k_doCancel (st : St) (k : Int) : KStep st (doCancel st k) := by
   unfold doCancel
   split
   · exact (g3_emit _ _).kstep
-  · exact k_watchCancel _ _
+  · exact (g3_with_cancelReq _ _).kstep.trans (k_watchCancel _ _)
 
 
 theorem k_runAct (st : St) (act : Act) : KStep st (runAct st act) := by
